@@ -140,6 +140,14 @@ def run_check(modname, tier, seed, only_case=None):
             continue
         rr = pool.run_one(check.run_case, v["case"], timeout=getattr(check, "TASK_TIMEOUT", 900))
         again = rr[1] if rr[0] == "ok" else None
+        if (again is None or not any(a.get("what") == v.get("what") for a in again)) and v.get("context_case"):
+            # the site is right in a process of its own: replay it inside the program it failed in (the whole batch file)
+            rr2 = pool.run_one(check.run_case, v["context_case"], timeout=getattr(check, "TASK_TIMEOUT", 900))
+            again2 = rr2[1] if rr2[0] == "ok" else None
+            if again2 and any(a.get("what", "").endswith(str(v.get("what"))) for a in again2):
+                v = dict(v, case=v["context_case"], what=again2[0].get("what"))
+                v.pop("context_case", None)
+                again = again2
         if again is None or not any(a.get("what") == v.get("what") for a in again):
             nondeterministic.append((v, rr))
             continue
